@@ -198,6 +198,7 @@ def settings_readback(chk, gwbin):
         R = s3c.Client(g.port, "root", "rootsecret")
         R.req("PATCH", "/create-user", body=b"<Account><Access>u1</Access><Secret>u1-secret</Secret><Role>userplus</Role><UserID>0</UserID><GroupID>0</GroupID></Account>")
         R.req("PATCH", "/create-user", body=b"<Account><Access>u2</Access><Secret>u2-secret</Secret><Role>userplus</Role><UserID>0</UserID><GroupID>0</GroupID></Account>")
+        R.req("PATCH", "/create-user", body=b"<Account><Access>adm</Access><Secret>adm-secret</Secret><Role>admin</Role><UserID>0</UserID><GroupID>0</GroupID></Account>")
         U1, U2 = s3c.Client(g.port, "u1", "u1-secret"), s3c.Client(g.port, "u2", "u2-secret")
         chk.require(U1.req("PUT", "/set-bkt", headers={"x-amz-bucket-object-lock-enabled": "true"}).status == 200, "c16:setup", "CreateBucket by u1 failed")
         bk = "set-bkt"
@@ -238,6 +239,19 @@ def settings_readback(chk, gwbin):
                 if got is None or got[0] != "u1": chk.fail("c16:acl-owner", "after PutBucketAcl %r the owner reads %r (created by u1)" % (hd, got), {"headers": hd})
                 elif want is not None and [x for x in got[1] if x[0] != "u1"] != want:
                     chk.fail("c16:acl-readback", "PutBucketAcl %r reads back grants %r" % (hd, got[1]), {"headers": hd})
+        # ACL documents in the request body: several grants, and one grantee holding two permissions
+        def acl_doc(grants):
+            return ("<AccessControlPolicy><Owner><ID>u1</ID></Owner><AccessControlList>" + "".join(
+                '<Grant><Grantee xmlns:xsi="http://www.w3.org/2001/XMLSchema-instance" xsi:type="CanonicalUser"><ID>%s</ID></Grantee><Permission>%s</Permission></Grant>' % g_ for g_ in grants)
+                + "</AccessControlList></AccessControlPolicy>").encode()
+        for grants in ([("u2", "READ")], [("u2", "READ"), ("adm", "WRITE")], [("u2", "READ"), ("u2", "WRITE")], [("u2", "READ_ACP"), ("adm", "READ"), ("u2", "WRITE_ACP")]):
+            r = R.req("PUT", "/" + bk, query={"acl": ""}, body=acl_doc(grants))
+            got = getacl(); restart(); got2 = getacl()
+            chk.case(("acl-body", tuple(grants)), True); chk.traces += 1; chk.count("acl-body:%d" % r.status)
+            if r.status in (200, 204):
+                if got is None or [x for x in got[1] if x[0] != "u1"] != sorted(grants) or got2 != got:
+                    chk.fail("c16:acl-body-readback", "PutBucketAcl with the grants %r in the body reads back %r (after a restart %r)" % (grants, got and got[1], got2 and got2[1]), {"grants": grants})
+        R.req("PUT", "/" + bk, query={"acl": ""}, headers={"x-amz-acl": "private"})
         R.req("PUT", "/" + bk, query={"ownershipControls": ""}, body=b"<OwnershipControls><Rule><ObjectOwnership>BucketOwnerPreferred</ObjectOwnership></Rule></OwnershipControls>")
         for kind, doc, put, get, deletable in kinds:
             r = put(); got = get(); restart(); got2 = get()
@@ -324,6 +338,20 @@ def races(chk, gwbin):
         if dl.status == 204 and cr.status == 200 and head.status != 200:
             chk.fail("c16:created-bucket-lost", "CreateBucket answered 200 while DeleteBucket was in progress, DeleteBucket answered 204, and the bucket does not exist", {"create": cr.status, "delete": dl.status})
         hk.clear()
+        # S4b: two creators of one name, the first parked right after it made the directory: at most one is acknowledged
+        n[0] += 1; bk = "race%04d" % n[0]
+        c1, c2, parked = hooks.held(hk, "posix.createbucket.made", lambda: A.req("PUT", "/" + bk), lambda: B.req("PUT", "/" + bk, headers={"x-amz-object-ownership": "BucketOwnerPreferred", "x-amz-acl": "public-read"}))
+        hk.clear()
+        chk.case(("race", "create-made|create|create-returns", 0), True); chk.traces += 1
+        acl = A.req("GET", "/" + bk, query={"acl": ""})
+        public = b"AllUsers" in (acl.body or b"")
+        row = {"schedule": "create-made|create|create-returns", "first": (c1.status, c1.code) if c1 is not None else None, "second": (c2.status, c2.code) if c2 is not None else None, "acl_is_public": public, "parked": parked}
+        if not parked:
+            chk.tie("hook schedule create-made|create reached its yield point", False, row)
+        elif c1 is not None and c2 is not None and c1.status == 200 and c2.status == 200:
+            chk.fail("c16:two-creators-acknowledged", "two concurrent CreateBucket requests for one name were both acknowledged (the bucket's ACL is that of the %s)" % ("second" if public else "first"), row)
+        elif c1 is not None and c1.status == 200 and public:
+            chk.fail("c16:refused-creator-changed-bucket", "the refused second CreateBucket (%s) left its ACL on the bucket the first one created" % (c2.status if c2 is not None else None), row)
         # unscheduled stress: upload and DeleteBucket fired together
         for i in range(40 if chk.tier == "quick" else 600):
             bk = fresh(); key = rnd.choice(["o", "d/o", "d/e/e/p/o"]); res = {}
